@@ -460,8 +460,8 @@ Proof.
 Qed.
 
 Lemma trial_spec k T H p t ts f : owns H ts (p_vs p) f ->
-  (exists ext, fst (trial k T H p t) = H ++ ext) /\
-  snd (trial k T H p t) = snd (cfeed k T (p_ss p) t (t =? END)).
+  (exists ext, fst (trial true k T H p t) = H ++ ext) /\
+  snd (trial true k T H p t) = snd (cfeed k T (p_ss p) t (t =? END)).
 Proof.
   intros ho. unfold trial. change (copy_parser false H p) with (H, p). cbv beta iota.
   assert (hh : exists ext ts' f', fst (if p_imm p then copy_parser true H p else (H, p)) = H ++ ext /\
@@ -481,16 +481,16 @@ Proof.
 Qed.
 
 Lemma accepts_loop_spec k T p ts f tl : forall H, owns H ts (p_vs p) f ->
-  (exists ext, fst (accepts_loop k T H p tl) = H ++ ext) /\
-  snd (accepts_loop k T H p tl) =
+  (exists ext, fst (accepts_loop true k T H p tl) = H ++ ext) /\
+  snd (accepts_loop true k T H p tl) =
     filter (fun t => kind_ok (snd (cfeed k T (p_ss p) t (t =? END)))) tl.
 Proof.
   induction tl as [|t tl IH]; intros H ho; simpl.
   - split; auto. exists []. rewrite app_nil_r; auto.
   - destruct (trial_spec k T H p t ts f ho) as [[e1 h1] h2].
-    destruct (trial k T H p t) as [H1 kd]. simpl in h1, h2. subst H1 kd.
+    destruct (trial true k T H p t) as [H1 kd]. simpl in h1, h2. subst H1 kd.
     destruct (IH (H ++ e1) (owns_extend _ _ _ _ _ ho)) as [[e2 h3] h4].
-    destruct (accepts_loop k T (H ++ e1) p tl) as [H2 acc]. simpl in *. subst H2 acc.
+    destruct (accepts_loop true k T (H ++ e1) p tl) as [H2 acc]. simpl in *. subst H2 acc.
     split; auto. rewrite <- app_assoc. eauto.
 Qed.
 
@@ -553,9 +553,9 @@ Arguments pparse_from : simpl never.
 
 Lemma wstep_sim k T cb w pps o F :
   wowns (w_heap w) pps (w_ps w) F -> all_deep o ->
-  (exists F', wowns (w_heap (fst (wstep k T cb w o))) (fst (pstep k T cb pps o))
-                    (w_ps (fst (wstep k T cb w o))) F') /\
-  snd (wstep k T cb w o) = snd (pstep k T cb pps o).
+  (exists F', wowns (w_heap (fst (wstep true k T cb w o))) (fst (pstep k T cb pps o))
+                    (w_ps (fst (wstep true k T cb w o))) F') /\
+  snd (wstep true k T cb w o) = snd (pstep k T cb pps o).
 Proof.
   intros hw hdeep. destruct w as [H ps]. simpl in hw.
   pose proof (wowns_length _ _ _ _ hw) as hlen.
@@ -623,7 +623,7 @@ Proof.
     destruct (wowns_set _ _ _ _ hw i p En) as (pp & f & a & (hi & hs & ho) & c & d).
     rewrite a.
     destruct (accepts_loop_spec k T p _ _ (choices T p) H ho) as [[ext e1] e2].
-    destruct (accepts_loop k T H p (choices T p)) as [H1 acc]. simpl in *. subst H1 acc.
+    destruct (accepts_loop true k T H p (choices T p)) as [H1 acc]. simpl in *. subst H1 acc.
     rewrite (paccepts_eq k T pp p hs). split; auto.
     exists F. eapply wowns_frame; eauto. intros l hl. apply nth_error_app1. eapply wowns_bound; eauto.
   - (* resume_parse *)
@@ -645,18 +645,18 @@ Qed.
 
 Lemma wrun_sim k T cb os : forall w pps F,
   wowns (w_heap w) pps (w_ps w) F -> Forall all_deep os ->
-  (exists F', wowns (w_heap (fst (wrun k T cb w os))) (fst (prun k T cb pps os))
-                    (w_ps (fst (wrun k T cb w os))) F') /\
-  snd (wrun k T cb w os) = snd (prun k T cb pps os).
+  (exists F', wowns (w_heap (fst (wrun true k T cb w os))) (fst (prun k T cb pps os))
+                    (w_ps (fst (wrun true k T cb w os))) F') /\
+  snd (wrun true k T cb w os) = snd (prun k T cb pps os).
 Proof.
   induction os as [|o os IH]; intros w pps F hw hd; simpl.
   - eauto.
   - inversion hd; subst.
     destruct (wstep_sim k T cb w pps o F hw H1) as [[F1 h1] h2].
-    destruct (wstep k T cb w o) as [w1 ob]. destruct (pstep k T cb pps o) as [pps1 pob].
+    destruct (wstep true k T cb w o) as [w1 ob]. destruct (pstep k T cb pps o) as [pps1 pob].
     simpl in *. subst pob.
     destruct (IH w1 pps1 F1 h1 H2) as [[F2 h3] h4].
-    destruct (wrun k T cb w1 os) as [w2 obs]. destruct (prun k T cb pps1 os) as [pps2 pobs].
+    destruct (wrun true k T cb w1 os) as [w2 obs]. destruct (prun k T cb pps1 os) as [pps2 pobs].
     simpl in *. subst. eauto.
 Qed.
 
@@ -742,8 +742,8 @@ Definition read_stack (H : heap) (p : parser) : list ptree := map (read (S (leng
    history - whatever was done to any other fork in between. *)
 Theorem fork_separation k T cb os :
   Forall all_deep os ->
-  let w := fst (wrun k T cb (world0 T) os) in
-  snd (wrun k T cb (world0 T) os) = snd (prun k T cb (pworld0 T) os) /\
+  let w := fst (wrun true k T cb (world0 T) os) in
+  snd (wrun true k T cb (world0 T) os) = snd (prun k T cb (pworld0 T) os) /\
   exists pps F,
     wowns (w_heap w) pps (w_ps w) F /\
     forall j p, nth_error (w_ps w) j = Some p ->
@@ -788,7 +788,7 @@ Proof. destruct k; simpl; [discriminate|]. destruct (action T s t); [discriminat
 Theorem accepts_exact k T cb H p ts f t id :
   table_wf T -> owns H ts (p_vs p) f ->
   let c := copy_parser true H p in
-  In t (snd (accepts_loop k T H p (choices T p))) <->
+  In t (snd (accepts_loop true k T H p (choices T p))) <->
   kind_ok (rkd (hifeed k T cb (fst c) (p_ss (snd c)) (p_vs (snd c)) t id)) = true.
 Proof.
   intros hwf ho c.
@@ -891,4 +891,21 @@ Proof.
   intros hf h1 h2. split.
   - rewrite hparse_from_app. rewrite h1. destruct bad as [ty id]. rewrite hparse_from_cons. simpl in *. rewrite h2. auto.
   - symmetry. apply feed_eq_parse. auto.
+Qed.
+
+(* tables built from data list their terminals exactly where they have an action *)
+Lemma assoc_in {A} k (l : list (nat * A)) : In k (map fst l) <-> assoc k l <> None.
+Proof.
+  induction l as [|[k' v] l IH]; simpl.
+  - split; [tauto|congruence].
+  - destruct (Nat.eqb_spec k' k).
+    + split; [discriminate|auto].
+    + rewrite <- IH. split; [intros [h|h]; [contradiction|auto]|auto].
+Qed.
+
+Lemma mk_table_wf acts gotos rules s0 e0 : table_wf (mk_table acts gotos rules s0 e0).
+Proof.
+  intros s t. simpl. destruct (assoc s acts) as [row|].
+  - apply assoc_in.
+  - simpl. split; [tauto|congruence].
 Qed.
